@@ -23,7 +23,7 @@ var commonAssumptions = []string{
 func init() {
 	prop(&PropDef{
 		ID:          "C01",
-		Rules:       []string{"TXN-1", "TXN-2", "SHAPE-1", "TAB-2", "UPS-1", "EXT-1", "WIN-3", "WIN-4", "WIN-1", "OWN-5", "OWN-8", "ATOM-2", "MOD-1", "IDX-1", "ATOM-5", "ACC-1", "LOCK-4", "ATOM-6"},
+		Rules:       []string{"TXN-1", "TXN-2", "SHAPE-1", "TAB-2", "UPS-1", "EXT-1", "WIN-3", "WIN-4", "WIN-1", "OWN-5", "OWN-8", "ATOM-2", "MOD-1", "IDX-1", "ATOM-5", "ACC-1", "LOCK-4", "ATOM-6", "TXN-5", "NS-1", "OWN-2"},
 		Explanation: "Structural necessary conditions of 'CRUD equals a sequential model', decided for every path/site of the resolved program: writes are never issued on an unlocked snapshot transaction (they would be silently discarded), every data access goes through a transaction that honours the session, the driver's counts and ids derive from the right engine result lists, every documented operator is wired, the upsert fallback fires exactly on 'nothing matched', and the find/update/delete window is sort -> filter(limit+skip) -> skip. Model equivalence itself (what each operator computes on each input) is a runtime relation and is NOT decided.",
 		Decided:     []string{"bsonkit.Set never moves a document to another position", "$in/$or upsert extraction only for a single alternative (len interval at each Put/Process site)", "lock flag vs. methods called at all 19 useTransaction sites", "no back door to Engine.catalog / NewTransaction", "provenance of MatchedCount/ModifiedCount/DeletedCount/Inserted*/Upserted*", "operator registries complete", "upsert condition is len(Matched)==0 && upsert", "window composition in Find/Replace/Update/Delete"},
 		NotDecided:  []string{"that each operator computes MongoDB's result on each input", "contents of collections after arbitrary histories", "error-or-success agreement with a reference model"},
@@ -31,7 +31,7 @@ func init() {
 	})
 	prop(&PropDef{
 		ID:          "C02",
-		Rules:       []string{"ATOM-1", "ATOM-2", "ATOM-3", "ATOM-4", "OWN-1", "OWN-2", "OWN-8", "LOG-1", "PUB-1", "ERR-1", "ACC-1", "ATOM-5", "OWN-10", "ERR-2", "OWN-3", "ATOM-6"},
+		Rules:       []string{"ATOM-1", "ATOM-2", "ATOM-3", "ATOM-4", "OWN-1", "OWN-2", "OWN-8", "LOG-1", "PUB-1", "ERR-1", "ACC-1", "ATOM-5", "OWN-10", "ERR-2", "OWN-3", "ATOM-6", "ATOM-7"},
 		Explanation: "The mechanism the property names - clone catalog + namespace + oplog, run, assign back only on success - checked on every path of every write method of *Transaction: no store of t.catalog/t.dirty is reachable from a failure edge and nothing fallible follows it; in Insert/Bulk the per-item clones are made inside the loop, assigned back as a pair on the success edge only, and every successful exit passes the final store; every mutation in package lungo happens on a fresh clone (catalog map and collections); mongokit.Collection validates before it mutates; the change event lives in the same discarded/kept clone pair.",
 		Decided:     []string{"cloned collections that were written to are installed before the publish store", "failure edges never reach the state store (26 stores)", "per-item clone/assign-back discipline in Insert and Bulk", "all catalog-map and collection mutations are on fresh clones", "validation dominates mutation in Collection write methods", "event append is paired with the data change"},
 		NotDecided:  []string{"aliasing that the origin tracking (bound 1 through unexported helpers) does not see", "byte-level equality of database states before/after a failed call"},
@@ -39,7 +39,7 @@ func init() {
 	})
 	prop(&PropDef{
 		ID:          "C03",
-		Rules:       []string{"OWN-1", "OWN-2", "OWN-3", "OWN-4", "OWN-8", "PUB-1", "TXN-2", "TXN-3", "TXN-4", "ATOM-1", "ATOM-4", "ASSUME-1", "ATOM-5", "OWN-10", "ATOM-6"},
+		Rules:       []string{"OWN-1", "OWN-2", "OWN-3", "OWN-4", "OWN-8", "PUB-1", "TXN-2", "TXN-3", "TXN-4", "ATOM-1", "ATOM-4", "ASSUME-1", "ATOM-5", "OWN-10", "ATOM-6", "TXN-5"},
 		Explanation: "Copy-on-write and publication discipline behind 'all-or-nothing transactions, immutable snapshots': nothing reachable from a published catalog is written (catalog map, collection, set list/index, btree, documents: every in-place document mutation works on a document that is fresh in the sharing analysis), clones are deep enough, only Commit publishes - after the identity check and after the store accepted the very catalog that is published - and reads inside a session use the session's transaction.",
 		Decided:     []string{"bsonkit copy functions verified deep (no parameter-owned container reaches a result)", "session detaches its transaction on every way out of Commit/Abort", "catalog/collection COW at every mutation site", "clone depth of Set/Index/Collection/Catalog", "stored documents are never mutated in place (OWN-4)", "single publish point with identity check, store-then-publish", "session transaction consulted first"},
 		NotDecided:  []string{"byte-identity of what a particular snapshot returns over a particular history", "primitive.Binary.Data sharing (documented exception of Clone)"},
@@ -47,7 +47,7 @@ func init() {
 	})
 	prop(&PropDef{
 		ID:          "C04",
-		Rules:       []string{"LOCK-0", "LOCK-3", "LOCK-4", "LOCK-5", "TXN-1", "TXN-2", "TXN-4", "PUB-1", "OWN-3", "LOCK-10", "LOCK-11", "DUR-3", "LOCK-13", "OWN-1", "ATOM-5"},
+		Rules:       []string{"LOCK-0", "LOCK-3", "LOCK-4", "LOCK-5", "TXN-1", "TXN-2", "TXN-4", "PUB-1", "OWN-3", "LOCK-10", "LOCK-11", "DUR-3", "LOCK-13", "OWN-1", "ATOM-5", "OWN-2"},
 		Explanation: "Lock and token discipline that strict serializability rests on: every mutable field of Engine/Session/Stream/Transaction/Cursor and the timestamp globals is accessed only under its mutex; the writer token is a typestate (acquired once, handed to e.txn, taken back and released exactly once); the writer's base snapshot is read after the token is won and in the critical section that registers e.txn (no lost update); writes need the lock flag; the catalog pointer is swapped under the mutex after the store accepted it.",
 		Decided:     []string{"clone depth of Set/Index/Collection/Catalog", "Semaphore.Acquire returns true exactly on token-holding paths", "consistent locking of ~150 field accesses", "token typestate on all paths of Begin/Commit/Abort", "snapshot-after-token in Begin", "write methods only on locked transactions", "publish protocol"},
 		NotDecided:  []string{"linearizability of observed histories", "real-time order", "agreement of results with the oplog order"},
@@ -55,7 +55,7 @@ func init() {
 	})
 	prop(&PropDef{
 		ID:          "C05",
-		Rules:       []string{"DUR-1", "DUR-2", "DUR-3", "DUR-4", "PUB-1", "TXN-3", "OWN-2", "ERR-1"},
+		Rules:       []string{"DUR-1", "DUR-2", "DUR-3", "DUR-4", "PUB-1", "TXN-3", "OWN-2", "ERR-1", "TAB-8"},
 		Explanation: "The ordered durability protocol, checked as dominance chains on the SSA of AtomicWriteFile (remove stale temp, O_CREATE|O_EXCL open, copy, fsync, close, rename(temp,path), open dir, fsync dir; each step on the success edge of the previous one; success reported only after the directory fsync), who may touch the file system, the FileStore pipeline, store-then-publish in Commit with error/txn/token handling on the failure edge, and no dropped error on the persist/load path. What a kill at a given syscall leaves on disk and what a real file system does with unsynced data are fault-model questions and NOT decided.",
 		Decided:     []string{"the session drops its transaction also when the commit fails", "8-step write protocol ordering and error handling", "only AtomicWriteFile mutates the file system", "FileStore.Store writes bson.Marshal(BuildFile(catalog)) to s.path", "Commit publishes only after Store returned nil; failure path returns the error with txn cleared and token released", "no dropped errors in store.go/file.go/atomic.go"},
 		NotDecided:  []string{"kill points and disk behaviour", "torn-write behaviour of the OS"},
@@ -63,7 +63,7 @@ func init() {
 	})
 	prop(&PropDef{
 		ID:          "C06",
-		Rules:       []string{"TAB-3", "TAB-4", "TAB-8", "TAB-9", "TAB-11", "TAB-1", "IDX-5", "IDX-7", "PUB-1", "DUR-1", "DUR-2", "ERR-1", "NIL-1"},
+		Rules:       []string{"TAB-3", "TAB-4", "TAB-8", "TAB-9", "TAB-11", "TAB-1", "IDX-5", "IDX-7", "PUB-1", "DUR-1", "DUR-2", "ERR-1", "NIL-1", "TAB-12"},
 		Explanation: "Tables that must agree for persist-and-reload to be the identity: the on-disk FileIndex/FileNamespace mirror IndexConfig/Collection field by field with plain copies in both directions, the codec tags are usable, every stored index is rebuilt from the loaded documents under its saved name and a duplicate fails the load, the BSON type universe is closed under Inspect/cloneValue, and the catalog that is persisted is the one that is published (retention runs before both). The fidelity of the bson codec for each value is third-party and per-value: NOT decided.",
 		Decided:     []string{"namespace key join/split agree (first separator, two parts), Validate rejects the separator in database names, every Transaction entry point validates", "per-namespace maps are allocated per namespace in BuildFile/BuildCatalog", "field coverage and plain-copy round trip of index definitions", "codec tags", "index rebuild on load", "type universe closure", "file and memory see the same catalog at commit"},
 		NotDecided:  []string{"bson codec fidelity per value (NaN, -0, decimal exponents)", "natural order after reload beyond 'documents are written in set order'"},
@@ -71,7 +71,7 @@ func init() {
 	})
 	prop(&PropDef{
 		ID:          "C07",
-		Rules:       []string{"IDX-1", "IDX-2", "IDX-3", "IDX-4", "IDX-5", "IDX-6", "IDX-8", "SEM-2", "SEM-3", "ATOM-3", "OWN-2", "UPS-1", "TAB-11", "TAB-3", "ERR-1", "ATOM-2", "IDX-10"},
+		Rules:       []string{"IDX-1", "IDX-2", "IDX-3", "IDX-4", "IDX-5", "IDX-6", "IDX-8", "SEM-2", "SEM-3", "ATOM-3", "OWN-2", "UPS-1", "TAB-11", "TAB-3", "ERR-1", "ATOM-2", "IDX-10", "NUM-5"},
 		Explanation: "Uniqueness enforcement as pairing rules: every write path of mongokit.Collection adds to / removes from every index for every document before it touches Documents and aborts on a false result; bsonkit.Index.Add probes every key tuple of a unique index before inserting and Add/Remove use the same tuple set; the _id_ index exists for every user namespace and cannot be dropped; the partial-filter gates of Add/Remove/Has agree; index builds (creation and file load) reject duplicates; the comparators the btree relies on are sign functions with the right orientation.",
 		Decided:     []string{"multi-document exchange removes all old versions before adding new ones", "index maintenance on all 5 write paths (loop completeness per index and per document)", "probe-before-insert", "_id_ index present and undroppable", "gate agreement", "build rejects duplicates", "leaf comparator tables and numeric orientation"},
 		NotDecided:  []string{"that Compare-equality of key tuples is the right equality for every value pair", "'never rejected wrongly' on concrete histories"},
@@ -79,7 +79,7 @@ func init() {
 	})
 	prop(&PropDef{
 		ID:          "C08",
-		Rules:       []string{"LOG-1", "LOG-2", "LOG-3", "LOG-4", "LOG-5", "RET-1", "MOD-1", "TAB-6", "ATOM-1", "ATOM-2", "ATOM-4", "OWN-2", "LOCK-3", "PUB-1", "OWN-10", "RET-2", "ACC-1", "UPD-4", "LOCK-5", "OWN-8"},
+		Rules:       []string{"LOG-1", "LOG-2", "LOG-3", "LOG-4", "LOG-5", "RET-1", "MOD-1", "TAB-6", "ATOM-1", "ATOM-2", "ATOM-4", "OWN-2", "LOCK-3", "PUB-1", "OWN-10", "RET-2", "ACC-1", "UPD-4", "LOCK-5", "OWN-8", "LOG-6"},
 		Explanation: "The change log as a pairing discipline: each successful collection mutation in the Transaction helpers is followed on every success path by an append of the matching event kind for the documents of the matching result list, with the error propagated, into the oplog clone that is published together with the data; only those helpers may mutate documents; failed/no-op writes store nothing (ATOM); update events pair a document with its own change record; retention removes List[0] of a cloned oplog only; the timestamp generator state is mutex-protected; event kinds written and read agree.",
 		Decided:     []string{"drop predicate of Clean over all loop-body paths (size protection exact, age protection, forced-drop clause)", "append after every mutation kind, placement and error propagation", "who may mutate", "prefix-only retention on a clone, run before store/publish", "Modified/Changes lock-step", "op strings"},
 		NotDecided:  []string{"replay equivalence on concrete histories", "content of updateDescription", "retention arithmetic (min/max size and age)", "numeric monotonicity of ids"},
@@ -87,7 +87,7 @@ func init() {
 	})
 	prop(&PropDef{
 		ID:          "C09",
-		Rules:       []string{"SIG-1", "SIG-2", "LOCK-1", "LOCK-2", "LOCK-3", "TAB-6", "PUB-1", "SEM-6", "WATCH-1", "LOG-3", "OWN-2"},
+		Rules:       []string{"SIG-1", "SIG-2", "LOCK-1", "LOCK-2", "LOCK-3", "TAB-6", "PUB-1", "SEM-6", "WATCH-1", "LOG-3", "OWN-2", "WATCH-2", "SIG-3"},
 		Explanation: "The wake-up and close protocol of change streams: buffered signal channel, all sends non-blocking and after publication, registration in the critical section that reads the start position, blocking wait on signal and ctx with the stream lock released, close(signal) only under Stream.mutex guarded by !closed after tomb.Kill outside Engine.mutex, every Stream path that sets closed also unregisters; no lock-order cycle and no blocking under locks among Engine/Stream; invalidate triggers read the event kinds that are written.",
 		Decided:     []string{"start-at position (nil for i==0, List[i-1] otherwise) and found condition Compare(startAt, clusterTime) <= 0", "no lost wake-up by construction (buffer + send-after-publish + register-with-position)", "no send on / double close of a closed channel", "no deadlock between stream and engine locks"},
 		NotDecided:  []string{"exactly-once, in-order delivery and resume positions over a history", "lost-position detection arithmetic", "timing"},
@@ -95,7 +95,7 @@ func init() {
 	})
 	prop(&PropDef{
 		ID:          "C10",
-		Rules:       []string{"TAB-2", "SEM-1", "SEM-4", "SEM-2", "SEM-9", "NUM-5", "FLAG-1", "FLAG-2", "REC-1", "SCH-1", "SEM-10", "NUM-6", "SEM-12"},
+		Rules:       []string{"TAB-2", "SEM-1", "SEM-4", "SEM-2", "SEM-9", "NUM-5", "FLAG-1", "FLAG-2", "REC-1", "SCH-1", "SEM-10", "NUM-6", "SEM-12", "SEM-13"},
 		Explanation: "Wiring and finite-domain semantics of query operators: every operator is registered, multi-name functions dispatch on exactly the registered names; matchComp's truth table over (type bracketing flag x sign of Compare) is the MongoDB one for each label; $ne/$nin/$nor are matchNegate around the function registered for $eq/$in/$or with the same arguments, matchNegate is an exact negation, and the per-iteration outcome tables of matchAnd/matchOr/matchNot are conjunction/disjunction/negated conjunction. These hold for every document and filter. Path traversal, array fan-out and the element-wise operators ($all, $size, $elemMatch, $mod, $bits*, $type, $exists, $jsonSchema) are NOT decided (DESIGN section 8).",
 		Decided:     []string{"matchUnwind flags agree with $eq for every leaf operator ($all excepted)", "exact ranges for int64<->float64 conversions in comparisons", "no never-set flag in operator code", "registries and dispatch", "comparison truth table incl. bracketing (36 cases)", "negation structure and logical connective tables"},
 		NotDecided:  []string{"dotted-path traversal and array fan-out", "$all/$size/$elemMatch/$mod/$bits/$type/$exists/$jsonSchema semantics", "agreement with a reference evaluator"},
@@ -103,7 +103,7 @@ func init() {
 	})
 	prop(&PropDef{
 		ID:          "C11",
-		Rules:       []string{"TAB-2", "TAB-5", "ATOM-3", "NUM-3", "LOG-4", "OWN-4u", "MOD-1", "UPD-1", "UPD-2", "UPD-3", "UPD-4", "FLAG-1", "FLAG-2", "REC-1", "ASSUME-1", "WIN-2", "UPS-1", "NIL-1", "UPD-5", "REC-2"},
+		Rules:       []string{"TAB-2", "TAB-5", "ATOM-3", "NUM-3", "LOG-4", "OWN-4u", "MOD-1", "UPD-1", "UPD-2", "UPD-3", "UPD-4", "FLAG-1", "FLAG-2", "REC-1", "ASSUME-1", "WIN-2", "UPS-1", "NIL-1", "UPD-5", "REC-2", "NUM-7", "MOD-2"},
 		Explanation: "Structural parts of update semantics: all 15 operators are registered and assert the context type their only Process site supplies; bsonkit.Add/Mul return the promoted static type for each of the 16 type pairs; an update is rejected as a whole (apply errors and the _id check dominate every index/Documents mutation); updates are applied to clones; modified-count filtering keeps documents and change records in lock step. Integer overflow (NUM-3) is a recorded known finding. What each operator computes on each document and idempotence are NOT decided.",
 		Decided:     []string{"$addToSet scans the array it grows", "no never-set flag in operator code", "operator wiring", "numeric promotion table (32 cases)", "reject-as-a-whole ordering", "apply-on-clone"},
 		NotDecided:  []string{"operator results ($push modifiers, $pull conditions, positional paths)", "idempotence laws", "field order preservation"},
@@ -119,7 +119,7 @@ func init() {
 	})
 	prop(&PropDef{
 		ID:          "C13",
-		Rules:       []string{"WIN-1", "WIN-2", "WIN-3", "WIN-4", "WIN-5", "WIN-6", "NUM-1", "NUM-5"},
+		Rules:       []string{"WIN-1", "WIN-2", "WIN-3", "WIN-4", "WIN-5", "WIN-6", "NUM-1", "NUM-5", "WIN-7"},
 		Explanation: "Structural parts of sort/skip/limit: in-place sorts only ever permute lists made in the same function (a sorted find cannot reorder the collection), document sorts are stable, the window is composed as sort(full list) -> filter(limit+skip under limit>0) -> drop skip under a bounds guard in all four siblings, and no allocation is sized by the caller's limit. The ordering produced by sortKey/Order, window arithmetic on values and distinct de-duplication are NOT decided.",
 		Decided:     []string{"Set keeps insertion order", "sortKey operand and update table over all loop-body paths", "no shared list is sorted in place", "stable sorts", "window composition in Find/Replace/Update/Delete", "bounded preallocation"},
 		NotDecided:  []string{"the order relation itself (per-direction array keys, missing as null)", "distinct"},
@@ -127,7 +127,7 @@ func init() {
 	})
 	prop(&PropDef{
 		ID:          "C14",
-		Rules:       []string{"OWN-4p", "TAB-2", "NUM-2s", "PROJ-1", "PROJ-2", "PROJ-3", "PROJ-4", "FLAG-1", "ASSUME-1", "PROJ-5", "PROJ-6"},
+		Rules:       []string{"OWN-4p", "TAB-2", "NUM-2s", "PROJ-1", "PROJ-2", "PROJ-3", "PROJ-4", "FLAG-1", "ASSUME-1", "PROJ-5", "PROJ-6", "PROJ-7"},
 		Explanation: "The non-interference clause of projections - projecting never alters the stored document - decided by the sharing analysis: every in-place mutation reachable from mongokit.Project works on containers that are fresh (Project clones its input first, so nested inclusions and operator overlays cannot write through to the original); the projection operators are registered and assert the state type Project supplies; the integer arithmetic of $slice windows cannot overflow before it is clamped. Which fields an inclusion/exclusion returns is NOT decided.",
 		Decided:     []string{"projectCondition effect table over (inclusion flag, path == _id)", "Project/ProjectList never write into their input", "projection registry", "$slice bounds arithmetic"},
 		NotDecided:  []string{"which paths are returned", "$elemMatch selection", "values of the window"},
@@ -135,7 +135,7 @@ func init() {
 	})
 	prop(&PropDef{
 		ID:          "C15",
-		Rules:       []string{"IDX-1", "IDX-3", "IDX-5", "IDX-7", "IDX-9", "TAB-3", "TAB-10", "OWN-2", "OWN-3", "ATOM-2", "ATOM-3", "ERR-1", "IDX-4", "WIN-1", "IDX-10"},
+		Rules:       []string{"IDX-1", "IDX-3", "IDX-5", "IDX-7", "IDX-9", "TAB-3", "TAB-10", "OWN-2", "OWN-3", "ATOM-2", "ATOM-3", "ERR-1", "IDX-4", "WIN-1", "IDX-10", "OWN-9"},
 		Explanation: "Index coherence as pairing + copy-on-write: every Documents mutation is paired with complete index maintenance for every index and every document, indexes only change together with their collection clone (so a failed or aborted write leaves no residue), creation is a no-op for an equal definition / rejects a conflicting key / builds from all current documents, file load rebuilds every index, and the _id_ index cannot be dropped.",
 		Decided:     []string{"IndexConfig.Equal compares every field on every true path", "Index.Build receives the collection's own list", "index maintenance pairing on all write paths", "indexes change only inside a fresh collection clone", "CreateIndex no-op/conflict/build", "reload rebuild", "_id_ spared"},
 		NotDecided:  []string{"key order inside the btree for given documents", "equivalence with a from-scratch rebuild on concrete histories"},
@@ -159,7 +159,7 @@ func init() {
 	})
 	prop(&PropDef{
 		ID:          "C19",
-		Rules:       []string{"TTL-1", "TTL-2", "TAB-7", "TAB-3", "SEM-1", "LOG-2", "ATOM-1", "ATOM-4", "LOCK-6", "OWN-2", "IDX-9", "IDX-4", "ACC-1", "OWN-10"},
+		Rules:       []string{"TTL-1", "TTL-2", "TAB-7", "TAB-3", "SEM-1", "LOG-2", "ATOM-1", "ATOM-4", "LOCK-6", "OWN-2", "IDX-9", "IDX-4", "ACC-1", "OWN-10", "LOCK-5", "TXN-2", "LOCK-4"},
 		Explanation: "Structure of the expiry pass: only namespaces with an index whose Expiry > 0 are cloned and deleted from, the TTL index list and the condition list are fresh per namespace, the filter is {$or: [{field: {$lt: <time.Time>}}]} so that type bracketing (SEM-1) restricts matches to dates, the delete goes through the logging helper on fresh clones, a pass that deletes nothing stores nothing, the `> 0` sentinel is used consistently and expireAfterSeconds:0 is mapped to a positive duration, and the background loop aborts/commits every transaction it begins. The cut-off arithmetic and 'if and only if' on actual dates are NOT decided.",
 		Decided:     []string{"oplog clone installed before publishing in Expire", "Expiry copied both ways in the file format", "per-namespace guard and freshness", "filter shape and operand type", "logged deletion on clones", "no-op pass stores nothing", "TTL sentinel"},
 		NotDecided:  []string{"date arithmetic (now - expiry)", "array-of-dates semantics of $lt fan-out"},
@@ -178,7 +178,7 @@ func init() {
 func init() {
 	prop(&PropDef{
 		ID:          "C18",
-		Rules:       []string{"GFS-1", "GFS-2", "GFS-3", "GFS-4", "PANIC-3", "ERR-1", "GFS-5"},
+		Rules:       []string{"GFS-1", "GFS-2", "GFS-3", "GFS-4", "PANIC-3", "ERR-1", "GFS-5", "GFS-6", "GFS-7"},
 		Explanation: "What a download returns for what was uploaded is a relation over runtime values (all byte strings x chunk sizes x write partitions x seek scripts) and is NOT decided. Decided is the bookkeeping that byte-exactness rests on and that is visible in the shape of bucket.go: every quantity of the upload and download paths is normalised to a linear form over receiver fields, parameters, loop variables and len(x), and the forms must be the ones the GridFS layout requires - chunk number, data window, loop step, the three counters, the remainder carry-over, where the file record takes length and chunk size from, the (chunk number, offset) split of a position, fetch order and number checks, how Read and Seek advance - plus the pairing 'file removed => chunks removed'.",
 		Decided:     []string{"chunk number = s.chunks + len(chunks); data = buffer[i:i+size]; size = min(bufLen-i, chunkSize); step = chunkSize; partial chunk only when final", "bufLen/chunks/length updates and remainder carry-over after a flush", "file record / marker take Length, ChunkSize, id from the stream's counters", "Resume accepts only chunks numbered 0,1,2,... and restores the counters from them", "seek: num = position/chunkSize, skip num, sort by n, files_id filter, number check, offset = position - num*chunkSize", "next: consecutive numbers; load: ceil(length/chunkSize)", "Read: EOF test, copy window, position/buffer/read advance by n; Seek: whence table and position stored after success", "Delete / Abort remove the chunks of the file on every successful path", "division by a chunk size only behind a positivity check (PANIC-3)"},
 		NotDecided:  []string{"that the bytes read equal the bytes written for any particular content, chunk size, write partition or seek script", "interaction with concurrent uploads / cleanup (markers)", "the 16 MiB buffer boundary behaviour beyond the carry-over identity", "Cleanup's age arithmetic"},
